@@ -1431,6 +1431,61 @@ Proof.
 Qed.
 
 
+(* ================================================================== M: add_vertex keeps the representation *)
+Definition K_av (K : list Z -> bool) (n : Z) (t : list Z) : bool := K t || seqb t [n].
+Definition fresh (K : list Z -> bool) (n : Z) : Prop := forall t, In n t -> K t = false.
+
+Lemma K_av_closed K n : closed K -> closed (K_av K n).
+Proof.
+  intros [H0 Hc]. split; [unfold K_av; rewrite H0; reflexivity|].
+  intros s t Ht Hs Hne. unfold K_av in *. apply orb_true_iff in Ht. destruct Ht as [Ht|Ht].
+  - rewrite (Hc s t Ht Hs Hne). reflexivity.
+  - apply seqb_eq in Ht. subst t. inversion Hs as [|x l1 l2 H|x l1 l2 H]; subst.
+    + apply sub_nil_r in H. congruence.
+    + apply sub_nil_r in H. subst. rewrite (proj2 (seqb_eq [n] [n]) eq_refl). apply orb_true_r.
+Qed.
+
+Lemma sub_pair_with n b : In n b -> (2 <= length b)%nat -> exists t, sub t b /\ length t = 2%nat /\ In n t.
+Proof.
+  induction b as [|x b IH]; intros Hin Hl; [destruct Hin|].
+  destruct b as [|y b']; [simpl in Hl; lia|].
+  destruct Hin as [->|Hin].
+  - exists [n; y]. split; [apply sub_take, sub_take, sub_nil_l | split; [reflexivity | left; reflexivity]].
+  - destruct b' as [|z b''].
+    + destruct Hin as [E|[]]. subst y. exists [x; n]. split; [apply sub_refl | split; [reflexivity | right; left; reflexivity]].
+    + destruct (IH Hin) as [t [Ht [Hlen Hn]]]; [simpl; lia|]. exists t. split; [apply sub_skip; exact Ht | split; assumption].
+Qed.
+
+Theorem add_vertex_keeps_representation (c : cplx) K :
+  closed K -> represents c K -> wf_slots c -> fresh K (slots c) ->
+  represents (add_vertex c) (K_av K (slots c)) /\ closed (K_av K (slots c)).
+Proof.
+  intros Hc [R1 [R2 R3]] Hwf Hfr. split; [|apply K_av_closed; auto]. split; [|split].
+  - intros t Ht. rewrite add_vertex_spec; auto. rewrite (R1 t Ht). reflexivity.
+  - intros b. change (blk (add_vertex c)) with (blk c). rewrite R2.
+    set (n := slots c) in *.
+    assert (Hkey : (3 <= length b)%nat -> (mnf K b <-> mnf (K_av K n) b)).
+    { intros Hl. assert (Hs3 : seqb b [n] = false).
+      { destruct (seqb b [n]) eqn:E; auto. apply seqb_eq in E. subst b. simpl in Hl. lia. }
+      split.
+      - intros [Hne [Hk Hf]]. split; auto. split; [unfold K_av; rewrite Hk, Hs3; reflexivity|].
+        intros t Ht Htb Htn. unfold K_av. rewrite (Hf t Ht Htb Htn). reflexivity.
+      - intros [Hne [Hk Hf]]. unfold K_av in Hk. apply orb_false_iff in Hk. destruct Hk as [Hk _].
+        split; auto. split; auto.
+        assert (Hnb : ~ In n b).
+        { intros Hin. destruct (sub_pair_with n b Hin) as [t [Ht [Hlen Hn]]]; [lia|].
+          assert (Htb : t <> b) by (intros ->; lia).
+          assert (Htn : t <> []) by (intros ->; simpl in Hlen; lia).
+          specialize (Hf t Ht Htb Htn). unfold K_av in Hf. rewrite (Hfr t Hn) in Hf. simpl in Hf.
+          apply seqb_eq in Hf. subst t. simpl in Hlen. lia. }
+        intros t Ht Htb Htn. specialize (Hf t Ht Htb Htn). unfold K_av in Hf. apply orb_true_iff in Hf.
+        destruct Hf as [Hf|Hf]; auto. apply seqb_eq in Hf. subst t. exfalso. apply Hnb.
+        apply (sub_incl _ _ Ht). left; auto. }
+    split; intros [H1 [H2 H3]]; (split; [auto|split; [apply Hkey; auto|auto]]).
+  - exact R3.
+Qed.
+
+
 (* ================================================================== witnesses *)
 (* boundary of the tetrahedron 0123 built through the transcribed operations *)
 Definition complete4 : cplx :=
